@@ -237,6 +237,11 @@ func (st *state) validate(instance reflect.Value, schema *Schema, callerAnns *an
 				}
 			}
 			if dynamicSchema == nil {
+				// No schema resource in the dynamic scope declares the anchor:
+				// the initially resolved schema stays the referent.
+				dynamicSchema = schemaInfo.dynamicRefInitial
+			}
+			if dynamicSchema == nil {
 				return fmt.Errorf("missing dynamic anchor %q", schemaInfo.dynamicRefAnchor)
 			}
 			if err := st.validate(instance, dynamicSchema, &anns); err != nil {
@@ -675,6 +680,9 @@ func (st *state) resolveDynamicRef(schema *Schema) (*Schema, error) {
 		if ok && info.dynamic {
 			return info.schema, nil
 		}
+	}
+	if info.dynamicRefInitial != nil {
+		return info.dynamicRefInitial, nil
 	}
 	return nil, fmt.Errorf("missing dynamic anchor %q", info.dynamicRefAnchor)
 }
